@@ -40,6 +40,7 @@ func init() {
 			"T7 the in-place topological sort re-examines the slot it filled by shifting; T8 MergeMapCallSources consults KnownLength() between obtaining a source set and handing it back as the survivor. " +
 			"T9 no arm of SplitExp.FindTypedRefs hands the element type unchanged to the value's FindTypedRefs (one known finding: the DisabledExp arm); T10 (= N8) every struct member is checked. " +
 			"T11 memo-key completeness for skipped members; T12 no ArrayDim test sits only in the not-a-map arm of a MapDim test on the same type (the outer dimension is examined first). " +
+			"T13 every expanded wildcard binding is compiled on every path before it joins the binding list. " +
 			"NOT decided: soundness of the whole relation, projection, array dimensions, error locations: this decides a few mechanisms, not the property's behaviour.",
 		Assumptions: commonAssumptions,
 	}
@@ -470,6 +471,7 @@ func runC07(c *an.Ctx) {
 	ruleMembersAll(c, "T10")
 	ruleMemoKey(c, "T11", "martian/syntax")
 	ruleT12(c, "T12")
+	ruleT13(c)
 }
 
 func ruleT2(c *an.Ctx) {
